@@ -145,7 +145,7 @@ def run(ctx):
     if ctx.quick:
         ctx.run_hypothesis(cases(), lambda c: check_case(c, False), max_examples=max(8, 100 // ctx.nshards), label='concat')
     else:
-        ctx.run_hypothesis(cases(), lambda c: check_case(c, True), max_examples=max(4, 96 // ctx.nshards), label='concat-exhaustive-cuts')
+        ctx.run_hypothesis(cases(), lambda c: check_case(c, True), max_examples=max(4, 320 // ctx.nshards), label='concat-exhaustive-cuts')
 
 
 def replay(case):
